@@ -72,6 +72,20 @@ def check_purity(cfg, sizes, rnd):
     for k2 in ('dwt2d', 'dtcwt', 'scat', 'dwt1d'):
         m2, i2 = _call(k2, torch.float32, 7)
         m2(i2)
+    # the SAME instance called with another dtype and another shape in between (may legitimately raise: dtype mismatch)
+    def _cast(o, dt):
+        if isinstance(o, torch.Tensor):
+            return o.to(dt) if o.is_floating_point() else o
+        if isinstance(o, tuple):
+            return tuple(_cast(q, dt) for q in o)
+        if isinstance(o, list):
+            return [_cast(q, dt) for q in o]
+        return o
+    for other in (_cast(inp, torch.float32),):
+        try:
+            mod(other)
+        except Exception:
+            pass
     m3, i3 = _call(kind, dtype, 1)
     leaves = [t.requires_grad_(True) if t.is_floating_point() else t for t in _flat(i3)]
     out3 = _flat(m3(i3))
